@@ -109,6 +109,23 @@ def drive (st : Option Sys) (toks : List String) : Option Sys × String :=
           | .ok (s', log) => (some s', showLog (sortByName log))
           | .error e => (st, showErr e)
         | none => (st, "bad-op")
+      | "run_fail", [t, b] =>
+        match parseList parseKV b with
+        | some bumps =>
+          match s.runFail t bumps with
+          | .ok s' => (some s', "raised synced=[]")
+          | .error e => (st, showErr e)
+        | none => (st, "bad-op")
+      | "set_item", [spec] =>
+        match parseModelSpec spec with
+        | some (k, h, i, v) =>
+          match Model.new h i v with
+          | .error e => (st, showErr e)
+          | .ok m =>
+            match s.setItem k m with
+            | .ok s' => (some s', "ok")
+            | .error e => (st, showErr e)
+        | none => (st, "bad-op")
       | "load", [b] =>
         match parseList parseKV b with
         | some saved =>
